@@ -336,6 +336,25 @@ func (ex *Exec) builtin(fr *Frame, st *State, site ssa.Instruction, b *ssa.Built
 		}
 	case "recover":
 		return zeroValue(anyType)
+	case "copy":
+		// copy(dst, src) on slices: the first min(len) elements of dst become those of src as
+		// they were before the call (memmove semantics); the result is that count
+		if dt, ok := common.Args[0].Type().Underlying().(*types.Slice); ok {
+			if _, isSlice := common.Args[1].Type().Underlying().(*types.Slice); isSlice {
+				dst, src := args[0], args[1]
+				elem := dt.Elem()
+				n := Ite(Le(dst.Len(), src.Len()), dst.Len(), src.Len())
+				snap := map[string]*MemLog{}
+				for _, l := range leavesOf(elem) {
+					snap[l.Path] = st.mem(memName(elem, l.Path), l.Sort)
+				}
+				lo := dst.Off()
+				st.regionWrite(dst.Arr(), lo, Add(lo, n), elem, func(l Leaf, idx *Term) *Term {
+					return snap[l.Path].read(src.Arr(), Add(src.Off(), Sub(idx, lo)))
+				})
+				return Value{T: tInt, L: []*Term{n}}
+			}
+		}
 	case "delete":
 		// delete(m, k): no-op on a nil map; otherwise k leaves the domain, the size shrinks iff k was present
 		m := args[0]
